@@ -51,7 +51,7 @@ CLAIMED = {
  "C19": ("FX1 FX2 FX3 FX4 FX6 CL1 CL3 CL4; supporting AB1 AB2 FD4 GR5 EN4 EN3", "effect analysis: frozen effect tables + call-site inventory + interprocedural entry conditions + path-root provenance slicing over go/ssa/VTA",
          "every file-mutating primitive call of the module is either under an explicit action flag or rooted in <SpokFile.Dir>/<cache>; the --fmt write targets Options.Spokfile with Tree.String() after Parse and file.New succeeded; --init is guarded by an existence test of the same path and appends to .gitignore; listing branches reach no mutation; the logger has no file sink; (supporting, shared with C02/C17/C03/C13) the cache directory's root is the discovered spokfile's directory, and file.New fails on duplicate tasks and failing builtins so that --fmt never rewrites a spokfile that does not load",
          "trusted: the effect tables of DESIGN.md appendix B (an unlisted external callee makes the check undecided). Not covered: effects of user commands / exec builtins (excluded by the property)"),
- "C20": ("ST1-ST10 GR6 RT4; supporting GR8 EN3 TK4", "effect inventory of stdout writers with entry conditions + dominance of the stream silencing + buffer/stream pairing by origin tracing + sorted-before-write dominance over go/ssa",
+ "C20": ("ST1-ST10 GR6 RT4; supporting GR8 EN3 TK4 EN4 EN5", "effect inventory of stdout writers with entry conditions + dominance of the stream silencing + buffer/stream pairing by origin tracing + sorted-before-write dominance over go/ssa",
          "the only direct stdout write prints Results.JSON() under Options.JSON; JSON() marshals the untouched SpokFile.Run result (no element store, re-ordering or append to a re-slice through any alias) with the expected tags; --quiet/--json install the Null stream before any reader; capture buffers pair with the right stream and result fields; listings collect, sort, then write; no printf-style call of the module has a run-time format; default dispatch runs 'default' or lists; the logger is not given standard output as a sink; (supporting, shared with C03/C13) SpokFile.Run is called once with the whole request, commands are expanded with text/template, one entry per command",
          "not covered: encoding/json rendering, tabwriter layout, docstring text"),
 }
